@@ -144,6 +144,8 @@ struct State {
     conns: Vec<ConnRec>,
     rules: Vec<Rule>,
     hold_new: bool,
+    /// handshakes 60 ms apart (`H<n>s`)
+    stagger: bool,
     queries: Vec<QueryRec>,
     /// every QUERY text received
     texts: Vec<String>,
@@ -219,12 +221,15 @@ impl Node {
                 let _ = sock.set_linger(Some(Duration::ZERO));
                 let kill = Arc::new(Notify::new());
                 let wake = Arc::new(Notify::new());
-                let rule = {
+                let (rule, stagger) = {
                     let mut s = st2.lock().unwrap();
                     let k = s.accepted;
                     s.accepted += 1;
-                    s.script.get(k).copied()
+                    (s.script.get(k).copied(), s.stagger && k > 0)
                 };
+                if stagger {
+                    tokio::time::sleep(Duration::from_millis(60)).await;
+                }
                 if rule == Some(AcceptRule::Refuse) {
                     drop(sock);
                     continue;
@@ -1075,6 +1080,10 @@ async fn run_pool(w: &[&str], race: bool, progress: &Mutex<String>, peek: &Mutex
         Some((b, sc)) => (b, Some(sc)),
         None => (*mode, None),
     };
+    // `H<n>s`: the node staggers its handshakes (60 ms apart), so that the order in which it accepts connections IS the
+    // order in which the pool gets them: connections can then be addressed one by one (`Kc<j>`, `<rule><i>,c<j>`)
+    let stagger = !sharded && base.ends_with('s');
+    let base = if stagger { &base[..base.len() - 1] } else { base };
     let n: u16 = base.get(1..)?.parse().ok()?;
     if n == 0 || n > 8 || !(sharded || mode.starts_with('H')) {
         return None;
@@ -1107,6 +1116,7 @@ async fn run_pool(w: &[&str], race: bool, progress: &Mutex<String>, peek: &Mutex
     } else {
         Node::start_scripted(if sharded { Some(n) } else { None }, node_script).await
     };
+    node.st.lock().unwrap().stagger = stagger;
     *peek.lock().unwrap() = Some(Arc::clone(&node.st));
     let size = if sharded {
         scylla::client::PoolSize::PerShard(NonZeroUsize::new(1).unwrap())
@@ -1223,10 +1233,17 @@ async fn run_pool(w: &[&str], race: bool, progress: &Mutex<String>, peek: &Mutex
                 out.push(if matches!(r, Ok((_, true))) { "y".into() } else { "y!".into() });
             }
             "K" => {
-                let s: u16 = arg.parse().ok()?;
+                let by_id: Option<usize> = match arg.strip_prefix('c') {
+                    Some(j) => Some(j.parse().ok()?),
+                    None => None,
+                };
+                let s: u16 = if by_id.is_some() { 0 } else { arg.parse().ok()? };
                 let victim = {
                     let mut st = node.st.lock().unwrap();
-                    let pos = canonical_victim(&st, &stmts, if sharded { Some(s) } else { None });
+                    let pos = match by_id {
+                        Some(j) => st.conns.get(j).filter(|c| c.live).map(|_| j),
+                        None => canonical_victim(&st, &stmts, if sharded { Some(s) } else { None }),
+                    };
                     pos.map(|i| {
                         st.conns[i].live = false;
                         Arc::clone(&st.conns[i].kill)
@@ -1251,10 +1268,14 @@ async fn run_pool(w: &[&str], race: bool, progress: &Mutex<String>, peek: &Mutex
                     "P" => RuleKind::Upper,
                     _ => RuleKind::CloseOnce,
                 };
-                let shard = if s == "*" { None } else { Some(s.parse().ok()?) };
+                let by_id: Option<usize> = match s.strip_prefix('c') {
+                    Some(j) => Some(j.parse().ok()?),
+                    None => None,
+                };
+                let shard = if s == "*" || by_id.is_some() { None } else { Some(s.parse().ok()?) };
                 let stmt = rule_stmt(i.parse().ok()?)?;
                 let mut st = node.st.lock().unwrap();
-                let conn = if kind == RuleKind::CloseOnce { canonical_victim(&st, &stmts, shard) } else { None };
+                let conn = if kind == RuleKind::CloseOnce { canonical_victim(&st, &stmts, shard) } else { by_id };
                 if kind == RuleKind::CloseOnce && conn.is_none() {
                     continue;
                 }
@@ -1389,14 +1410,16 @@ async fn run_resp(w: &[&str], ctx: &mut Ctx) -> Option<String> {
 // `sess`: a REAL Session against the mock cluster, compared token by token with the session / cluster model
 // ---------------------------------------------------------------------------------------------
 //
-// `sess <n>[/<mask>] <name:cs,...> <step;...>`   n unsharded nodes (one pool connection each); bit i of the mask: the
-// session is built with a host filter that rejects node i (it is known, has no pool, answers a fan-out with Ok). Steps:
+// `sess <n>[/<mask>[/<zmask>]] <name:cs,...> <step;...>`   n unsharded nodes (one pool connection each); bit i of the
+// mask: the session is built with a host filter that rejects node i (it is known, has no pool, answers a fan-out with
+// Ok); bit i of zmask: node i owns NO tokens (known, pooled, absent from the ring - reached by targeted requests). Steps:
 //   `U<i>`         session.use_keyspace(names[i])                      → `ok` | `e:<label>`
 //   `R<i>,<n|*>`   node n (all nodes) answers `USE names[i]` with an Invalid error      `X` no more rejections
 //   `T<n>`         node n stops answering `USE` (the call times out after 700 ms)     `t` all nodes answer again
 //   `K<n>`         node n closes its pool connections → `k`            `W` wait until all pools are full → `w1` | `w0`
 //   `A`            a node joins (metadata refresh) → `a<nodes>`
-//   `Q<k>`         k requests → `q<keyspace at arrival>@<node>,...`
+//   `Q<k>`         k requests → `q<keyspace at arrival>@<node>,...`    `Q<k>@<n>` the same TARGETED at node n
+//   `P`            Session::prepare of a fresh statement → `p<keyspace at arrival>@<node>,...` of its PREPARE frames
 //   `L`            per node the live pool connections with the keyspaces each acknowledged → `l[n0:ka>kb|n1:...]`
 // The oracle of the `pool` cases applies (arrival keyspace after an Ok call; invalid names never on the wire).
 
@@ -1487,7 +1510,46 @@ fn sess_generate(rng: &mut Rng, emit: &mut dyn FnMut(String)) {
     }
     steps.push("W".into());
     steps.push("L".into());
-    let n_field = if host_mask == 0 { n.to_string() } else { format!("{}/{}", n, host_mask) };
+    // every third case: some nodes own NO tokens (coordinator-only nodes: known and pooled, outside the ring; at least one
+    // initial node keeps its tokens). Requests TARGETED at single nodes (the only way to reach a token-less node) and
+    // `Session::prepare` (one connection per known node) are mixed in after the untargeted requests
+    let zero_mask: u64 = if n >= 2 && rng.chance(1, 3) {
+        let keep = rng.below(n as u64);
+        (1 + rng.below((1 << (n + 1)) - 1)) & !(1 << keep)
+    } else if rng.chance(1, 6) {
+        1 << n
+    } else {
+        0
+    };
+    let mut mixed: Vec<String> = Vec::new();
+    let mut present = n as u64;
+    for st in steps {
+        let untargeted_q = st.starts_with('Q');
+        if st == "A" {
+            present += 1;
+        }
+        mixed.push(st);
+        if untargeted_q {
+            let tokenless: Vec<u64> = (0..present).filter(|i| zero_mask >> i & 1 == 1).collect();
+            if !tokenless.is_empty() && rng.chance(3, 4) {
+                mixed.push(format!("Q{}@{}", rng.range(1, 2), rng.pick(&tokenless)));
+            }
+            if rng.chance(1, 3) {
+                mixed.push(format!("Q{}@{}", rng.range(1, 2), rng.below(present)));
+            }
+            if rng.chance(1, 3) {
+                mixed.push("P".into());
+            }
+        }
+    }
+    let steps = mixed;
+    let n_field = if zero_mask != 0 {
+        format!("{}/{}/{}", n, host_mask, zero_mask)
+    } else if host_mask == 0 {
+        n.to_string()
+    } else {
+        format!("{}/{}", n, host_mask)
+    };
     emit(format!("sess {} {} {}", n_field, names_field(&sc.names), steps.join(";")));
 }
 
@@ -1504,11 +1566,16 @@ fn run_sess(w: &[&str], ctx: &mut Ctx) -> Option<String> {
     use crate::mockcluster::{Act, KeyspaceSpec, MockCluster, NodeSpec, Req, act_error, host_id_of, rows_body, simple_strategy};
     use crate::mocknode::ShardMode;
     // `<n>` or `<n>/<mask>`: bit i of the mask = the session's host filter rejects node i
-    let (n, host_mask): (usize, usize) = match w.get(1)?.split_once('/') {
-        None => (w.get(1)?.parse().ok()?, 0),
-        Some((a, m)) => (a.parse().ok()?, m.parse().ok()?),
+    // bit i of the second mask = node i owns NO tokens (a coordinator-only node: known, pooled, outside the ring)
+    let parts: Vec<&str> = w.get(1)?.split('/').collect();
+    let (n, host_mask, zero_mask): (usize, usize, usize) = match parts[..] {
+        [a] => (a.parse().ok()?, 0, 0),
+        [a, m] => (a.parse().ok()?, m.parse().ok()?, 0),
+        [a, m, z] => (a.parse().ok()?, m.parse().ok()?, z.parse().ok()?),
+        _ => return None,
     };
-    if !(1..=4).contains(&n) || host_mask >= 256 {
+    // at least one of the initial nodes must own tokens (the driver refuses the metadata otherwise)
+    if !(1..=4).contains(&n) || host_mask >= 256 || zero_mask >= 256 || (0..n).all(|i| zero_mask >> i & 1 == 1) {
         return None;
     }
     let filtered = move |i: usize| host_mask >> i & 1 == 1;
@@ -1516,6 +1583,11 @@ fn run_sess(w: &[&str], ctx: &mut Ctx) -> Option<String> {
     let steps: Vec<&str> = w.get(3)?.split(';').filter(|s| !s.is_empty()).collect();
     let shape = Shape { nodes: n, dcs: 1, racks: 1, shards: 0, msb: 12, vnodes: 2, strat: Strat::Simple(1), seed: 7 };
     let mut topo = shape.topology();
+    for (i, node) in topo.nodes.iter_mut().enumerate() {
+        if zero_mask >> i & 1 == 1 {
+            node.tokens.clear();
+        }
+    }
     for (name, cs) in names.iter().filter(|(nm, _)| spec_valid(nm)) {
         if let Some(k) = server_keyspace_of(&spec_statement(name, *cs))
             && !topo.keyspaces.iter().any(|x| x.name == k)
@@ -1658,21 +1730,55 @@ fn run_sess(w: &[&str], ctx: &mut Ctx) -> Option<String> {
                 "A" => {
                     let i = cluster.n_nodes();
                     cluster
-                        .add_node(NodeSpec { host_id: host_id_of(i), dc: Shape::dc_name(0), rack: "r1".into(), tokens: vec![1000 + i as i64, -5000 - i as i64], shards: ShardMode::None })
+                        .add_node(NodeSpec {
+                            host_id: host_id_of(i),
+                            dc: Shape::dc_name(0),
+                            rack: "r1".into(),
+                            tokens: if zero_mask >> i & 1 == 1 { vec![] } else { vec![1000 + i as i64, -5000 - i as i64] },
+                            shards: ShardMode::None,
+                        })
                         .await;
                     let _ = session.refresh_metadata().await;
                     wait_full(&session, Duration::from_secs(3)).await;
                     out.push(format!("a{}", cluster.n_nodes()));
                 }
+                "P" => {
+                    // Session::prepare: one random connection per known node (cluster/state.rs
+                    // iter_working_connections_to_nodes), all working connections as the fallback
+                    let id = next_id;
+                    next_id += 1;
+                    expect.push((id, confirmed.clone()));
+                    let text = format!("SELECT pk, v FROM t WHERE pk = 0x{:08x}", id);
+                    let ok = session.prepare(text.clone()).await.is_ok();
+                    let mut toks: Vec<String> = cluster
+                        .user_frames()
+                        .into_iter()
+                        .filter(|f| matches!(&f.parsed, Parsed::Prepare { text: t } if *t == text))
+                        .map(|f| format!("p{}@{}", f.keyspace.unwrap_or_else(|| "-".to_owned()), f.node))
+                        .collect();
+                    toks.sort();
+                    out.push(if ok && !toks.is_empty() { toks.join(",") } else { "p!".to_owned() });
+                }
                 "Q" => {
-                    let k: usize = arg.parse().ok()?;
+                    // `Q<k>`: k requests wherever the default policy sends them; `Q<k>@<node>`: k requests TARGETED at
+                    // that node (SingleTargetLoadBalancingPolicy) - the only way a request reaches a token-less node
+                    let (k, target) = match arg.split_once('@') {
+                        None => (arg, None),
+                        Some((k, t)) => (k, Some(t.parse::<usize>().ok()?)),
+                    };
+                    let k: usize = k.parse().ok()?;
                     let mut toks = Vec::new();
                     for _ in 0..k.min(16) {
                         let id = next_id;
                         next_id += 1;
                         expect.push((id, confirmed.clone()));
                         let text = format!("SELECT pk, v FROM t WHERE pk = 0x{:08x}", id);
-                        let ok = session.query_unpaged(text.clone(), ()).await.is_ok();
+                        let mut stmt = scylla::statement::Statement::new(text.clone());
+                        if let Some(t) = target {
+                            use scylla::policies::load_balancing::{NodeIdentifier, SingleTargetLoadBalancingPolicy};
+                            stmt.set_load_balancing_policy(Some(SingleTargetLoadBalancingPolicy::new(NodeIdentifier::HostId(uuid::Uuid::from_bytes(host_id_of(t))), None)));
+                        }
+                        let ok = session.query_unpaged(stmt, ()).await.is_ok();
                         let frame = cluster.user_frames().into_iter().find(|f| matches!(&f.parsed, Parsed::Query { text: t, .. } if *t == text));
                         toks.push(match (ok, frame) {
                             (true, Some(f)) => format!("q{}@{}", f.keyspace.unwrap_or_else(|| "-".to_owned()), f.node),
